@@ -6,6 +6,7 @@ package simnode
 import (
 	"encoding/json"
 	"fmt"
+	"github.com/xuperchain/xupercore/kernel/consensus"
 	"github.com/xuperchain/xupercore/kernel/engines/xuperos"
 	"github.com/xuperchain/xupercore/kernel/engines/xuperos/miner"
 	"path/filepath"
@@ -122,6 +123,9 @@ type Node struct {
 	chainMu   sync.Mutex
 	chain     *xuperos.Chain
 	recvMiner *miner.Miner
+	// Consensus, when set before the first engine call, replaces the null consensus of the
+	// engine objects built for this node (C16 plugs real consensus plugins in)
+	Consensus consensus.ConsensusInterface
 }
 
 func envFor(w *memkv.World) *xconf.EnvConf {
